@@ -9,6 +9,15 @@ if os.path.exists(os.path.join(ROOT, "last_sweep.txt")):
         m = re.match(r'^(C\d\d[a-z]) (C\d\d) rc=(\d+)\s*(.*)$', l.strip())
         if m:
             res[m.group(1)] = {"check": m.group(2), "rc": int(m.group(3)), "lines": m.group(4)}
+blind = {}
+for bf in sorted(glob.glob(os.path.join(ROOT, "round*_blind*.txt"))):
+    for l in open(bf):
+        m = re.match(r'^(C\d\d[a-z]) (C\d\d) rc=(\d+)\s*(.*)$', l.strip())
+        if m:
+            lines = m.group(4)
+            blind[m.group(1)] = ("missed (exit 0)" if m.group(3) == "0" else
+                                 "obligation / tie only (no failing input)" if lines.count("VIOLATION") <= lines.count("no-failing-input-found") else
+                                 "caught with a failing input") + " [%s]" % os.path.basename(bf)
 props = {json.loads(l)["id"]: json.loads(l) for l in open(os.path.join(os.path.dirname(ROOT), "properties.jsonl"))}
 rows = []
 for d in sorted(glob.glob(ROOT + "/C*")):
@@ -18,6 +27,9 @@ for d in sorted(glob.glob(ROOT + "/C*")):
     # the section of this mutation
     secs = re.split(r'\n(?=#+ *Mutation)', notes)
     want = ab.upper()
+    origin = open(os.path.join(d, "ORIGIN.txt")).read().strip() if os.path.exists(os.path.join(d, "ORIGIN.txt")) else ""
+    if origin:
+        want = "[12]"
     sec = next((s for s in secs if re.match(r'#+ *Mutation %s\b' % want, s)), None)
     if sec is None:
         sec = notes
@@ -34,6 +46,9 @@ for d in sorted(glob.glob(ROOT + "/C*")):
         "change": title[:300],
         "needs_to_manifest": need,
         "confirmed": "tools/confirm_seed.sh seeded/%s/patch.diff seeded/%s/demo_test.go.txt: patch applies to /repo HEAD, `go test .` (existing suite) passes with it, the demonstration test fails with it and passes without it" % (sid, sid),
+        "blind_result": blind.get(sid, "not blind (rounds 1 and 2: the generators were strengthened after reading the seeding agent's summary, before the first run)"),
+        "origin": origin or ("round %d, per-property seeding" % {"a": 1, "b": 1, "c": 2, "d": 2, "e": 3, "f": 3, "g": 4, "h": 4}.get(ab, 0)),
+        "rebased": open(os.path.join(d, "REBASED.txt")).read().strip() if os.path.exists(os.path.join(d, "REBASED.txt")) else None,
         "ran": "tools/run_seed.sh %s %s  (git -C /repo apply; ./check %s --tier quick; git -C /repo checkout -- .)" % (sid, pid, pid),
         "result": (("caught: exit 1, VIOLATION with a concrete failing input" if found else "caught: exit 1, VIOLATION ... no-failing-input-found (an obligation / tie broke, the search found no failing input)") if r and r["rc"] == 1 else
                    ("MISSED (exit 0)" if r else "not run in the last sweep")),
